@@ -30,8 +30,9 @@ var c06Reps = map[val.Kind][]val.V{
 	val.KB:    {val.Bin("a"), val.Bin("b")},
 	val.KBOOL: {val.Bool(true), val.Bool(false)},
 	val.KNULL: {val.Null()},
-	val.KL:    {val.List(val.Str("a"), val.Num("1")), val.List(val.Str("b")), val.List(val.Null(), val.Bool(true))},
-	val.KM:    {val.Map(map[string]val.V{"x": val.Str("a")}), val.Map(map[string]val.V{"x": val.Str("b"), "y": val.Num("1")})},
+	// (documents of which one is a part of another: a prefix of a list, a sub-map of a map)
+	val.KL:    {val.List(val.Str("a"), val.Num("1")), val.List(val.Str("b")), val.List(val.Null(), val.Bool(true)), val.List(val.Str("a"))},
+	val.KM:    {val.Map(map[string]val.V{"x": val.Str("a")}), val.Map(map[string]val.V{"x": val.Str("b"), "y": val.Num("1")}), val.Map(map[string]val.V{"x": val.Str("a"), "y": val.Num("1")})},
 	val.KSS:   {val.SS("a", "b"), val.SS("b")},
 	val.KNS:   {val.NS("1", "2"), val.NS("2")},
 	val.KBS:   {val.BS("a", "b"), val.BS("b")},
@@ -118,6 +119,17 @@ func c06Matrix() []c06Case {
 				hv := pool[(i+j*7+3)%len(pool)]
 				out = append(out, c06Case{Cond: &refmodel.Cond{Op: "between", Args: []refmodel.Operand{pathL, valR, valX}}, Item: mkItem(lv, val.Absent()), Values: val.Item{":r": rv, ":x": hv}, Tag: "order-between"})
 			}
+		}
+	}
+	// attributes whose names only LOOK like reserved words (the dictionary spelling of the reserved list's own
+	// misspellings FLATTERN / LOGED / INNTER, plurals, words with a suffix), used bare: ordinary names, ordinary answers
+	for _, name := range []string{"logged", "flatten", "Logged", "FLATTEN", "statuses", "namess", "sizes", "size_", "datax", "counters", "inner_", "timestamps"} {
+		pn := refmodel.Operand{Kind: "path", Path: refmodel.P(name)}
+		for _, it := range []val.Item{{name: val.Str("a"), "z": val.Str("bystander")}, {"z": val.Str("bystander")}} {
+			out = append(out, c06Case{Cond: &refmodel.Cond{Op: "cmp", Cmp: "=", Args: []refmodel.Operand{pn, valX}}, Item: it, Values: val.Item{":x": val.Str("a")}, Tag: "near-reserved-name"})
+			out = append(out, c06Case{Cond: &refmodel.Cond{Op: "exists", Args: []refmodel.Operand{pn}}, Item: it, Values: val.Item{}, Tag: "near-reserved-name"})
+			out = append(out, c06Case{Cond: &refmodel.Cond{Op: "between", Args: []refmodel.Operand{pn, valX, valR}}, Item: it, Values: val.Item{":x": val.Str("a"), ":r": val.Str("b")}, Tag: "near-reserved-name"})
+			out = append(out, c06Case{Cond: &refmodel.Cond{Op: "cmp", Cmp: "<>", Args: []refmodel.Operand{valX, pn}}, Item: it, Values: val.Item{":x": val.Str("q")}, Tag: "near-reserved-name"})
 		}
 	}
 	// functions x kinds
